@@ -40,7 +40,7 @@ def run(ctx):
     lim = 8 if not ctx.thorough else 60
     ctx.rule("all exported optimizer classes: construct without configuration; optimize() before configuring must raise ValueError; for generated parameter dictionaries (documented values with every key "
              "dropped / mistyped / zeroed / negated / doubled / reversed) set_config_parameters(d) must succeed or fail exactly as Config(**d) and give an equal configuration; "
-             "for accepted dictionaries with a sane budget (max_cycles ≤ 5, population ≤ 3× documented; a third of them) a seeded run configured either way must be identical; a case = one (class, dictionary); non-trivial = all")
+             "for accepted dictionaries with a sane budget (max_cycles ≤ 5, population ≤ 3× documented; a third of them) a seeded run configured either way — also by re-configuring an instance that has already run under another configuration — must be identical; a case = one (class, dictionary); non-trivial = all")
     js = []
     for name in optimizers.names():
         for var in dict_variants(rng, name, lim):
@@ -69,6 +69,9 @@ def run(ctx):
                 ctx.fail(f"C18/{j['name']}/configuration-after-set_config_parameters-not-equal", f"{j['variant']}", "S-rel", {"job": j})
             elif r.get("via_set") != r.get("via_ctor"):
                 ctx.fail(f"C18/{j['name']}/run-after-set_config_parameters-differs", f"{j['variant']}", "S-rel", {"job": j})
+            elif r.get("via_reconfigure", r.get("via_ctor")) != r.get("via_ctor"):
+                ctx.fail(f"C18/{j['name']}/run-after-reconfiguring-a-used-instance-differs", f"{j['variant']}: an instance that ran under another configuration and was then given this one by set_config_parameters differs from an instance constructed with it",
+                         "S-rel", {"job": j})
     ctx.sample({"class": js[0]["name"], "variant": js[0]["variant"], "outcome": {k: res[0].get(k) for k in ("empty_ctor", "optimize_without_config", "build", "set", "config_equal")}})
 
 
